@@ -555,3 +555,29 @@ ENGINES.append(dict(name="mpi-shim", path="lib/shim/mpi.h", kind_free_text="in-p
                     "logical hang detection", serves_properties=["C04"]))
 for _e in ENGINES[:3]:
     _e["serves_properties"] = sorted(PROPS.keys())
+
+# generator classes and oracle clauses added while checking the checks against seeded changes (rounds 3-7, DESIGN 8.5)
+RULE_ADDENDA = {
+    "C01": "; also: constant integrand min/16 (subnormal range); shim-MPI unit (shares, estimate equal to the serial run)",
+    "C02": "; also: PLAIN with values of 256 denorm_min; error() is bit for bit sqrt(variance()), NaN included; shim-MPI unit with zero / finite / non-finite regions",
+    "C03": "; also: distribution names with tab, CR, control and high bytes, a leading '#', backslash-n; shim-MPI unit",
+    "C04": "; also: the campaign may be split into two integrator calls (continued checkpoint); an integrand that returns zero everywhere but fills its distributions",
+    "C05": "; also: names starting with '#', containing backslash-n, control characters",
+    "C06": "; also: chi_square_dof of the paired runs, call / finite / non-zero counters of the combinations; shim-MPI unit",
+    "C07": "; also: dimensions whose ratio smoothed/norm underflows in T are judged coarsely (5 % of the total importance); the model scales data near the largest finite number",
+    "C08": "; also: data whose products w W^beta are all subnormal; run level: start checkpoint through text, long double model of every refinement with the configured beta / minimum, default weights 1/n, the campaign repeated after rollback(0) with other call counts",
+    "C09": "; also: integer weights with exact partial sums: every canonical number next to a boundary is decided by the exact comparison u S_n < S_i (128-bit integers); integer weights summing to 2^digits incl. a boundary at the largest canonical number",
+    "C10": "; also: shim-MPI unit (every rank ends at the serial stream position), sub-communicators",
+    "C11": "; also: integrand values that are integer multiples of denorm_min (differential layer)",
+    "C12": "; also: second oracle without tolerance band: target := the relative error accumulate<weighted_with_variance> reports after iteration k of an identical run; per-iteration estimate and variance recomputed from sum / sum_of_squares / calls; an integrand vanishing on 90 % of the domain (NaN relative error must not end the run)",
+    "C13": "; also: a result with zero calls inserted at a hashed position changes nothing; chi^2/dof of results that coincide exactly with the combination (exact small-integer construction)",
+    "C14": "; also: every other value NaN / +inf / -inf; a scale at which squares overflow but sums do not, and one a few binades above min; subnormal values; float and long double shim-MPI units",
+    "C15": "; also: k = 2^32 + j, 3 * 2^32 + n - 1, SIZE_MAX, SIZE_MAX - 1 are rejected and leave the checkpoint unchanged; shim-MPI unit",
+    "C16": "; also: float shim-MPI unit; sub-communicators; the preceding run with other dimensions",
+    "C17": "; also: VEGAS random numbers k/bins and neighbours; the logging function object and the logging map carry state by value (copies are detected); weights as a refinement hands them on after an infinite datum; the integrand with a distribution is built with the make_ helper",
+    "C18": "; also: a directory in which no new file can be created (kill sweep over the calls made then); a distribution name of 2000-5000 characters; shim-MPI unit (only rank 0 opens the file)",
+    "C19": "; also: independent long double models of both refinements (weights: (8+2n) eps; grid: the F-space model shared with C07); beta = 0",
+    "C20": "; also: empty file name; a distribution name with a line break; a checkpoint continued with one distribution less (same outcome in all four modes)",
+}
+for _k, _v in RULE_ADDENDA.items():
+    PROPS[_k]["rule"] += _v
